@@ -334,8 +334,8 @@ def work_chain(bins, seed, idx, tmp):
             vset = [c for c in anc if repo.tags_at(c)]
             nearest = [c for c in vset if not any(c2 != c and c in repo.anc(c2) for c2 in vset)]
             at_tag = h in nearest
-            kind = (rng.choice(["clean", "touched_same_content", "modified", "untracked", "mode_change", "deleted"]) if not at_tag else
-                    rng.choice(["clean", "touched_same_content", "staged_new", "staged_modified", "modified", "mode_change", "deleted", "untracked"]))
+            kind = (rng.choice(["clean", "touched_same_content", "modified", "untracked", "mode_change", "deleted", "unmerged"]) if not at_tag else
+                    rng.choice(["clean", "touched_same_content", "staged_new", "staged_modified", "modified", "mode_change", "deleted", "untracked", "unmerged"]))
             dirty = repo.make_dirty(kind)
             if nearest and not any(c in first_parent_anc(h) for c in nearest):
                 st["chain_tag_only_via_second_parent"] += 1
